@@ -248,6 +248,20 @@ func (rr *reqRun) buildFrame(sc *reqScenario, tok string, stream int16, version 
 			return frame.NewFrame(version, stream, &message.Query{Query: fmt.Sprintf(idemStmts[rr.intn(len(idemStmts))], tok),
 				Options: &message.QueryOptions{Consistency: cl}}), "QUERY", false
 		}
+		// whatever carries the graph payload is a graph request: a traversal, a statement that would be idempotent as
+		// plain CQL, or an EXECUTE of a prepared statement whose text the proxy knows to be idempotent
+		switch rr.intn(3) {
+		case 0:
+			frm := frame.NewFrame(version, stream, &message.Execute{QueryId: rr.ids[prepIdem], ResultMetadataId: rr.ids[prepIdem],
+				Options: &message.QueryOptions{Consistency: cl, PositionalValues: []*primitive.Value{primitive.NewValue([]byte(tok))}}})
+			frm.SetCustomPayload(map[string][]byte{"graph-source": []byte("g")})
+			return frm, "EXECUTE", true
+		case 1:
+			frm := frame.NewFrame(version, stream, &message.Query{Query: fmt.Sprintf(idemStmts[rr.intn(len(idemStmts))], tok),
+				Options: &message.QueryOptions{Consistency: cl}})
+			frm.SetCustomPayload(map[string][]byte{"graph-source": []byte("g")})
+			return frm, "QUERY", false
+		}
 		frm := frame.NewFrame(version, stream, &message.Query{Query: fmt.Sprintf("g.V().has('k','%s')", tok),
 			Options: &message.QueryOptions{Consistency: cl}})
 		frm.SetCustomPayload(map[string][]byte{"graph-source": []byte("g")})
@@ -307,6 +321,7 @@ type roundOpts struct {
 	compression     string
 	restarts        int
 	addNode         bool
+	lateAddNode     bool
 	override        bool   // configure a write-consistency override that applies to every write of the workload
 	stallMs         int    // hold back the answer to one heartbeat per data connection for this long
 	holdMs          int    // hold back every scripted answer for this long (requests pile up on the connection)
@@ -314,6 +329,7 @@ type roundOpts struct {
 	postCompression string // ... or prepares them again after the workload's setup client did
 	preCompression  string // a client with this compression prepares the statements before the workload's own clients do
 	churn           int    // short-lived clients that hang up with requests in flight
+	localBursts     int    // clients that pipeline bursts of requests the proxy answers itself
 	idleClose       bool   // short heartbeat interval / idle timeout: connections of a silent node are closed by the proxy
 }
 
@@ -417,6 +433,31 @@ func runRound(scs []*reqScenario, nodes, numConns, nclients, workers int, out st
 		}
 		t.Emit("Ready", "hosts", e.HostKeys(), "numconns", numConns)
 	}
+	if ro.lateAddNode {
+		// a node joins when every session (the start-up one and, with -compression, the clients') already exists: the
+		// pools of ALL of them on the new node are created by the AddEvent path
+		ip := fakecql.IP(env.Block(), nodes+1)
+		if err := e.C.AddNode(ip); err != nil {
+			return err
+		}
+		e.IPs = append(e.IPs, ip)
+		if cc := e.C.ControlConn(); cc != nil {
+			cc.Close("force-refresh")
+		}
+		want := numConns
+		if ro.compression != "" {
+			want = 2 * numConns
+		}
+		deadline := time.Now().Add(8 * time.Second)
+		for time.Now().Before(deadline) {
+			if n := e.C.Node(ip); n != nil && len(n.Conns()) >= want {
+				break
+			}
+			time.Sleep(20 * time.Millisecond)
+		}
+		time.Sleep(150 * time.Millisecond)
+		t.Emit("Ready", "hosts", e.HostKeys(), "numconns", numConns)
+	}
 	t.Emit("ScenarioStart")
 	if ro.stallMs > 0 {
 		// the next heartbeat of every data connection is answered late: the proxy gives up on it, the answer still arrives
@@ -517,6 +558,53 @@ func runRound(scs []*reqScenario, nodes, numConns, nclients, workers int, out st
 			}
 		}(k)
 	}
+	// bursts of requests the proxy answers itself (reads of system.local, each with an alias of its own), pipelined in
+	// one write together with a few forwarded ones: every stream must get exactly its own answer
+	stopBursts := make(chan struct{})
+	var burstWg sync.WaitGroup
+	for k := 0; k < ro.localBursts; k++ {
+		burstWg.Add(1)
+		go func(k int) {
+			defer burstWg.Done()
+			bc, err := e.StartedClient(primitive.ProtocolVersion4, ro.compression)
+			if err != nil {
+				return
+			}
+			defer bc.Close()
+			for it := 0; ; it++ {
+				select {
+				case <-stopBursts:
+					return
+				default:
+				}
+				var frms []*frame.Frame
+				var toks, classes []string
+				n := 8 + rr.intn(24)
+				for q := 0; q < n; q++ {
+					tok := rr.newToken()
+					if q%7 == 6 {
+						frms = append(frms, frame.NewFrame(primitive.ProtocolVersion4, int16(300+q), &message.Query{Query: fmt.Sprintf(idemStmts[0], tok),
+							Options: &message.QueryOptions{Consistency: primitive.ConsistencyLevelOne}}))
+						classes = append(classes, "idem|QUERY|burst")
+					} else {
+						frms = append(frms, frame.NewFrame(primitive.ProtocolVersion4, int16(300+q), &message.Query{
+							Query:   fmt.Sprintf(`SELECT key AS "%s" FROM system.local`, tok),
+							Options: &message.QueryOptions{Consistency: primitive.ConsistencyLevelOne}}))
+						classes = append(classes, "idem|LOCAL|burst")
+					}
+					toks = append(toks, tok)
+				}
+				from := bc.Count()
+				if bc.SendMany(frms, toks, classes) != nil {
+					return
+				}
+				if !bc.WaitCount(from+n, 5*time.Second) {
+					// streams of an unanswered burst are not reused
+					return
+				}
+			}
+		}(k)
+	}
 	for w := 0; w < nclients*workers; w++ {
 		wg.Add(1)
 		go func(sl slot) {
@@ -546,6 +634,8 @@ func runRound(scs []*reqScenario, nodes, numConns, nclients, workers int, out st
 	wg.Wait()
 	close(stopChurn)
 	churnWg.Wait()
+	close(stopBursts)
+	burstWg.Wait()
 	close(stopDrops)
 	// quiescence: nothing logged for the window
 	quiet := t.Quiesce(700*time.Millisecond, 8*time.Second)
@@ -608,6 +698,7 @@ func init() {
 		compression := fs.String("compression", "", "clients negotiate this compression (lz4|snappy)")
 		restarts := fs.Int("restarts", 0, "random node restarts per round (connections dropped, prepared statements forgotten)")
 		addNode := fs.Bool("addnode", false, "a node joins after the proxy connected")
+		lateAddNode := fs.Bool("lateaddnode", false, "a node joins after the clients' sessions were created")
 		kinds := fs.String("kinds", "", "comma separated request kinds for random scenarios (query,execute,batch,graph)")
 		stallMs := fs.Int("stall", 0, "answer one heartbeat per data connection this many ms late")
 		holdMs := fs.Int("hold", 0, "hold back every scripted answer this many ms")
@@ -615,6 +706,7 @@ func init() {
 		preCompression := fs.String("precompression", "", "a client with this compression prepares the statements first")
 		postCompression := fs.String("postcompression", "", "a client with this compression prepares the statements again after the set-up")
 		churn := fs.Int("churn", 0, "short-lived clients that send a pipeline of requests and hang up without reading the answers")
+		localBursts := fs.Int("localbursts", 0, "clients that send bursts of pipelined requests which the proxy answers itself (one write per burst)")
 		idleClose := fs.Bool("idleclose", false, "random scenarios include nodes falling silent until the proxy closes their connections (idle timeout 400 ms)")
 		override := fs.Bool("override", false, "configure an unsupported-write-consistency override matching the workload's writes")
 		_ = fs.Parse(args)
@@ -676,7 +768,7 @@ func init() {
 				j = len(scs)
 			}
 			if err := runRound(scs[i:j], *nodes, *numConns, *nclients, *workers, *out, st, *dropRate, int64(k), *maxDelay,
-				roundOpts{compression: *compression, restarts: *restarts, addNode: *addNode, stallMs: *stallMs, holdMs: *holdMs, override: *override, noDrops: *noDrops, idleClose: *idleClose, preCompression: *preCompression, postCompression: *postCompression, churn: *churn}); err != nil {
+				roundOpts{compression: *compression, restarts: *restarts, addNode: *addNode, lateAddNode: *lateAddNode, stallMs: *stallMs, holdMs: *holdMs, override: *override, noDrops: *noDrops, idleClose: *idleClose, preCompression: *preCompression, postCompression: *postCompression, churn: *churn, localBursts: *localBursts}); err != nil {
 				return err
 			}
 		}
